@@ -877,4 +877,56 @@ theorem write_read_fasta_many_aux {α : Type} [DecidableEq α] (J : JsonLib α) 
         exact toR3_OK J y (hJ y (List.mem_cons_of_mem _ hy)) (h y (List.mem_cons_of_mem _ hy)))]
   exact mapM_readRec J (r :: rs) hJ
 
+/-! ## the guessed header parser on what the writer prints -/
+
+theorem info_head123 {α : Type} [DecidableEq α] (J : JsonLib α) (ann : α) (defn : Option Bytes) (hJ : J.OKat (ann, defn)) :
+    info J ann defn = [] ∨ (info J ann defn).head? = some 123 := by
+  unfold info
+  split
+  · exact Or.inl rfl
+  · obtain ⟨ts, hts, body, rfl, _, _⟩ := hJ.balanced
+    rw [hts, flat_cons]
+    exact Or.inr rfl
+
+/-- **dispatch of `ParseGuessedFastSeqHeader`**: on a header printed by `FormatFastSeqJsonHeader` the guessed parser
+    is the JSON parser (`hobi`: what the OBI parser does with an empty definition — nothing) -/
+theorem parseGuessed_info {α : Type} [DecidableEq α] (J : JsonLib α) (obi : Bytes → Option (Parsed α))
+    (hobi : obi [] = some ⟨J.empty, none⟩) (ann : α) (defn : Option Bytes) (hJ : J.OKat (ann, defn)) :
+    parseGuessed obi J.empty (J.lib (info J ann defn)) (info J ann defn)
+      = parseFastSeqJsonHeader J.empty (J.lib (info J ann defn)) (info J ann defn) := by
+  rcases info_head123 J ann defn hJ with h | h
+  · rw [h]
+    simp [parseGuessed, hobi, parseFastSeqJsonHeader, parseJsonHeader, scanJson_nil]
+  · simp [parseGuessed, h]
+
+theorem readRecG_written {α : Type} [DecidableEq α] (J : JsonLib α) (obi : Bytes → Option (Parsed α))
+    (hobi : obi [] = some ⟨J.empty, none⟩) (id seq : Bytes) (q : Option Bytes) (ann : α) (defn : Option Bytes)
+    (hJ : J.OKat (ann, defn)) :
+    readRecG J obi ⟨id, info J ann defn, seq, q⟩ = readRec J ⟨id, info J ann defn, seq, q⟩ := by
+  simp only [readRecG, readRec, parseGuessed_info J obi hobi ann defn hJ]
+
+theorem write_read_fastaG_aux {α : Type} [DecidableEq α] (J : JsonLib α) (obi : Bytes → Option (Parsed α))
+    (hobi : obi [] = some ⟨J.empty, none⟩) (r : Record α) (hJ : J.OKat (r.ann, r.defn)) (h : WF r) :
+    readFastaG J obi (writeFasta J r) = some [{ r with qual := none }] := by
+  unfold readFastaG writeFasta
+  rw [parseFasta_formatFasta r.id _ r.seq h.id_ne h.id_noBlank (info_oneLine J _ _ hJ) (info_head J _ _ hJ)
+    h.seq_ne h.seq_ok]
+  simp [readRecG_written J obi hobi _ _ _ _ _ hJ, readRec, header_roundtrip_aux J _ _ hJ]
+
+theorem write_read_fastqG_aux {α : Type} [DecidableEq α] (J : JsonLib α) (obi : Bytes → Option (Parsed α))
+    (hobi : obi [] = some ⟨J.empty, none⟩) (sh : UInt8)
+    (hsh : sh = 33 ∨ sh = 64) (r : Record α) (hJ : J.OKat (r.ann, r.defn)) (h : WF r)
+    (hq : (qualities r.seq r.qual).length = r.seq.length) :
+    readFastqG J obi sh (writeFastq J sh r)
+      = some [{ r with qual := some ((qualities r.seq r.qual).map (fun q => min q 93)) }] := by
+  have e := write_read_fastq_aux J sh hsh r hJ h hq
+  unfold readFastq writeFastq at e
+  unfold readFastqG writeFastq
+  rw [parseFastq_formatFastq sh sh r.id _ r.seq r.qual h.id_ne h.id_noBlank (info_oneLine J _ _ hJ)
+    (info_head J _ _ hJ) h.seq_ne h.seq_ok hq
+    (by intro c hc; simp only [List.mem_map] at hc; obtain ⟨q, _, rfl⟩ := hc; exact writeQ_noEol sh hsh q)] at e ⊢
+  simp only [List.mapM_cons, List.mapM_nil] at e ⊢
+  rw [readRecG_written J obi hobi _ _ _ _ _ hJ]
+  exact e
+
 end ObiVerif.Header
